@@ -29,6 +29,7 @@ def draw_knobs(rng: Rng, profile: dict):
     g = kr.pick(profile.get("granularities", [1.0 / 1024, 1.0 / 16, 1.0, 2.0]))
     kn = dict(
         backend=backend,
+        cores=kr.pick([1, 2, 2, 3]),
         granularity=g,
         tick_per_op=kr.pick([0, 1, 1, 3, 20]),
         n_targets=kr.pick(profile.get("sizes", [1, 2, 3, 3, 4, 4, 5, 6, 8])),
@@ -161,6 +162,13 @@ class WorldScenario:
                 if fid not in cl.jobs:
                     add("foreign", {"op": "foreign", "id": fid,
                                     "code": r.pick(PHASE_CODES[cl.flavour]["running"] + PHASE_CODES[cl.flavour]["pending"])})
+        if w.local is not None:
+            for jb in sorted(w.local.running_jobs(), key=lambda jb: jb["tid"]):
+                how = "ok" if r.chance(pf.get("p_job_ok", 0.6)) else "failed"
+                add("finish", {"op": "finish", "id": jb["tid"], "how": how}, 1.0)
+            if w.local.pool.loop.next_timer() is not None or w.local.doomed():
+                add("finish", {"op": "pool_settle"}, 0.5)
+            add("pool_restart", {"op": "pool_restart"})
         files_out = [o for t in w.model.targets.values() for o in t.outputs]
         if w.model.sources:
             add("modify_source", {"op": "modify_source", "f": r.pick(w.model.sources)})
@@ -191,6 +199,28 @@ class WorldScenario:
             if j is not None and j.phase == "pending" and w.cluster.dep_state(j) == "ok":
                 self._on_job_start(w, j)
                 w.cluster.start(j)
+        elif kind == "finish" and w.local is not None:
+            jb = w.local.jobs.get((w.local.generation, op["id"]))
+            if jb is not None and jb["proc"] is not None and jb["proc"].alive:
+                class J:
+                    pass
+
+                j = J()
+                j.id, j.name = op["id"], jb["name"]
+                w.run_job_effects(j, op["how"], 0.0, False)
+                w.local.finish(op["id"], op["how"])
+        elif kind == "pool_settle":
+            if w.local is not None:
+                w.local.settle_timers()
+        elif kind == "pool_restart":
+            if w.local is not None:
+                w.local.start_pool()
+                from .sock import SocketProxy
+
+                SocketProxy.hub = w.local
+                w.probe("pool_restarts")
+        elif kind in ("start", "sched_cancel", "purge", "acct_flush", "set_code", "foreign") and w.cluster is None:
+            pass
         elif kind == "finish":
             j = w.cluster.jobs.get(op["id"])
             if j is not None and j.phase == "running":
